@@ -79,6 +79,13 @@ CHECKS = {
   text="14 scenarios covering every client command (12 against the real server + in-memory backend, 2 against a scripted server with unusual but valid transcripts) x every server->client offset x {EOF, reset, stall} and every client->server offset x {write error}. Liveness is decided in logical time: after the fault all I/O completes at once, read deadlines expire at once, a deadline-less stall is ended by Client.Close once the client is parked.",
   design_ref="DESIGN.md §3 C10",
   note="Backstops of 25-30 s are orders of magnitude above the millisecond run time; the completion oracle is skipped for the STARTTLS scenario (ciphertext)."),
+
+ "C11": dict(
+  category="exploration",
+  technique="runtime monitoring of a real client fed hostile byte streams: recover()-guarded accessor walk over every returned value, reader-panic detection, worker processes with a 64 MB stack bound and heap guard (fatal errors attributed to the logged current stream), deterministic allocation counters on scaling families; race detector on",
+  text="Targeted invariant probes (with and without pending commands), grammar-generated responses of every kind the client parses with boundary numbers, byte/token mutations, raw garbage, 16 scaling families (8x range of N) and deep-nesting probes to 10^6 levels, each against a client with 20 pending commands of every kind. Decides: no reader or accessor panic, no fatal recursion, no zero/dynamic numbers delivered without error, no super-linear allocation per input byte.",
+  design_ref="DESIGN.md §3 C11",
+  note="CPU time is recorded nowhere as a verdict (allocation counters only); set-enumerating accessors are called only for spans <= 2*10^6; one known finding (ESEARCH span) is listed in known_findings.json."),
 }
 
 NOT_YET = "check not built yet in this round (planned in DESIGN.md §3; runtime monitoring applies)"
